@@ -166,3 +166,50 @@ impl AttrField {
 pub enum ExpansionMode { Single, Multiple }
 /// std::mem::drop of the borrowed IFS value: the value is gone (it has no destructor)
 pub assume_specification<T>[ core::mem::drop::<T> ](x: T);
+
+// ---- for expand_words: the events of several words one after the other --------------------------------------------------------------
+pub proof fn lemma_globbed_split(l: Seq<Ev>, from: int, a: int, b: int)
+    requires a >= 0, b >= 0
+    ensures globbed(l, from, a + b) =~= globbed(l, from, a) + globbed(l, from + a, b)
+    decreases b
+{
+    if b > 0 { lemma_globbed_split(l, from, a, b - 1); }
+}
+/// an expansion event delivers nothing itself: the answers of `word-expansion, m pathname expansions` are those of the m
+pub proof fn lemma_globbed_skip(l: Seq<Ev>, from: int, m: int)
+    requires m >= 0, l[from] is Expanded
+    ensures globbed(l, from, 1 + m) =~= globbed(l, from + 1, m)
+{
+    lemma_globbed_split(l, from, 1, m);
+    assert(globbed(l, from, 1) =~= globbed(l, from, 0) + Seq::<Field>::empty());
+}
+/// the words whose initial expansion is recorded among the n events from position `from` on, in order
+pub open spec fn expanded_words(l: Seq<Ev>, from: int, n: int) -> Seq<int>
+    decreases n
+{
+    if n <= 0 { Seq::empty() } else {
+        let rest = expanded_words(l, from, n - 1);
+        match l[from + n - 1] { Ev::Expanded { word, will_split, phrase, ifs_after, status } => rest.push(word), _ => rest }
+    }
+}
+pub proof fn lemma_expanded_prefix(l0: Seq<Ev>, l1: Seq<Ev>, from: int, n: int)
+    requires n >= 0, from >= 0, l0.len() >= from + n, l1.len() >= l0.len(), forall|k: int| 0 <= k < l0.len() ==> l1[k] == l0[k]
+    ensures expanded_words(l1, from, n) == expanded_words(l0, from, n)
+    decreases n
+{ if n > 0 { lemma_expanded_prefix(l0, l1, from, n - 1); } }
+/// one word: its expansion event followed by m events that are no expansions
+pub proof fn lemma_expanded_one(l: Seq<Ev>, from: int, m: int, w: int)
+    requires m >= 0, (l[from] matches Ev::Expanded { word, will_split, phrase, ifs_after, status } && word == w), forall|k: int| from < k <= from + m ==> !(#[trigger] l[k] is Expanded)
+    ensures expanded_words(l, from, 1 + m) =~= seq![w]
+    decreases m
+{
+    if m > 0 { lemma_expanded_one(l, from, m - 1, w); } else { assert(expanded_words(l, from, 0) =~= Seq::<int>::empty()); }
+}
+pub proof fn lemma_expanded_split(l: Seq<Ev>, from: int, a: int, b: int)
+    requires a >= 0, b >= 0
+    ensures expanded_words(l, from, a + b) =~= expanded_words(l, from, a) + expanded_words(l, from + a, b)
+    decreases b
+{
+    if b > 0 { lemma_expanded_split(l, from, a, b - 1); }
+}
+pub open spec fn word_ids(w: Seq<Word>) -> Seq<int> { Seq::new(w.len(), |i: int| w[i].verif_id) }
